@@ -40,8 +40,8 @@ assumptions = [
     "harness/drv_array.c; f8 = destructor only); reference part: the library's array traits and metatype-reference "
     "traits with harness metatype instances; the traits of config items, commands and identifiers are not driven here "
     "(config items: C10, commands: C11, identifiers: C16)",
-    "no zero-filling operation is applied to buffers of the destructor-only type f8 (a zeroed element of such a type "
-    "is an empty reference, which the token bookkeeping does not know)",
+    "the destructor-only harness type f8 treats a zeroed element as an empty reference (its destructor does nothing for "
+    "it and the stored-token comparison skips it), as reference_array<T> does",
     "arrays of arrays are built without cycles (a buffer that contains a reference to itself is never released)",
     "source elements handed to mpt_array_set do not live in the target array's own buffer",
     "constructions performed by the harness itself (source elements of a set, elements placed into the region returned "
@@ -161,25 +161,26 @@ def random_scripts(tier, seed, scale):
 
 
 def nocopy_scripts(tier):
-    """destructor-only element type (as reference_array<T>) in BufferNoCopy buffers, grown past the first allocation
-    (more than 8 elements) or not, then shared: a modification through either handle must be refused or leave every
-    element owned once.  No zero-filling ops here: a zeroed element of such a type is 'empty', which the token
-    bookkeeping of the harness does not know."""
+    """destructor-only element type f8 (as reference_array<T>; a zeroed element is an empty reference) in BufferNoCopy
+    buffers, grown past the first allocation (more than 8 elements) or not, shared or not: a modification through
+    either handle must be refused or leave every element owned once; elements exposed again after a cut
+    (slice-extend, set without data, insert behind the end) must be empty, not the stale bytes of released ones"""
     out = []
     def ops(h, o):
-        return ["a insert %s 0 zero:8" % h, "a insert %s u zero:8" % h, "a insert %s u-8 zero:16" % h, "a detach %s u" % h,
-                "a detach %s u+200" % h, "a cut %s 0 8" % h, "a cut %s 8 0" % h, "a reserve %s u+8 f8" % h, "a reserve %s 400 f8" % h,
-                "a reduce %s" % h, "a drop %s" % h, "a clone %s %s" % (h, o)]
+        return ["a insert %s 0 zero:8" % h, "a insert %s u zero:8" % h, "a insert %s u+8 zero:8" % h, "a detach %s u" % h,
+                "a detach %s u+200" % h, "a cut %s 0 8" % h, "a cut %s 8 0" % h, "a cut %s 0 0" % h, "a reserve %s u+8 f8" % h,
+                "a reserve %s 400 f8" % h, "a reduce %s" % h, "a slice %s 0 16" % h, "a slice %s u 16" % h, "a slice %s u+8 8" % h,
+                "a set %s f8 0 zero:8" % h, "a set %s f8 6 zero:16" % h, "a bset %s u zero:8" % h, "a drop %s" % h, "a clone %s %s" % (h, o)]
     pool = ops("h0", "h1") + ops("h1", "h0")
-    for n in ((1, 8, 9, 12, 30) if tier == "quick" else (0, 1, 3, 8, 9, 12, 17, 30, 40)):
+    for n in ((1, 4, 8, 9, 12, 30) if tier == "quick" else (0, 1, 3, 4, 8, 9, 12, 17, 30, 40)):
         for flags in (2, 0) if n in (9, 12) else (2,):
             for shared in (True, False):
                 setup = ["a alloc h0 0 %d f8 -" % flags] + ["a insert h0 u zero:8"] * n + (["a clone h1 h0"] if shared else [])
                 for a in pool:
                     out.append(("nc1:%d:%d:%s:%s" % (n, flags, shared, a), _script(setup, "-", [a])))
-                if n in (9, 12) and flags == 2:
+                if n in (4, 9) and flags == 2:
                     for a in pool:
-                        for b in pool[::2] if tier == "quick" else pool:
+                        for b in pool[::3] if tier == "quick" and n == 9 else pool:
                             out.append(("nc2:%d:%s:%s;%s" % (n, shared, a, b), _script(setup, "-", [a, b])))
     return out
 
@@ -201,7 +202,7 @@ def scripts(tier, seed, scale=1):
                 for b in red:
                     out.append(("ex2:%s:%s:%s;%s" % (sn, orc, a, b), _script(SETUPS[sn], orc, [a, b])))
     for sn in ("m4x3-shared", "m4x3-two"):
-        for orc in (["-", "01"] if tier == "quick" else ["-", "1", "01", "001", "0001"]):
+        for orc in ((["-", "01"] if sn == "m4x3-shared" else ["-"]) if tier == "quick" else ["-", "1", "01", "001", "0001"]):
             for a in small:
                 for b in small:
                     for c in small:
